@@ -164,7 +164,34 @@ func (w *World) errState(ret *ssa.Return) tri {
 	if idx < 0 || idx >= len(ret.Results) {
 		return triNA
 	}
-	return w.valueErrState(ret.Results[idx], ret.Block(), 0)
+	return w.valueErrState(retResult(ret, idx), ret.Block(), 0)
+}
+
+// retResult returns result #idx of ret, looking through the spill that go/ssa
+// inserts in functions with defers (`*resultVar = v; rundefers; return *resultVar`).
+func retResult(ret *ssa.Return, idx int) ssa.Value {
+	v := ret.Results[idx]
+	u, ok := v.(*ssa.UnOp)
+	if !ok || u.Op != token.MUL {
+		return v
+	}
+	a, ok := u.X.(*ssa.Alloc)
+	if !ok {
+		return v
+	}
+	b := ret.Block()
+	for hops := 0; hops < 4 && b != nil; hops++ {
+		for i := len(b.Instrs) - 1; i >= 0; i-- {
+			if st, ok := b.Instrs[i].(*ssa.Store); ok && st.Addr == a {
+				return st.Val
+			}
+		}
+		if len(b.Preds) != 1 {
+			break
+		}
+		b = b.Preds[0]
+	}
+	return v
 }
 
 func (w *World) valueErrState(v ssa.Value, at *ssa.BasicBlock, d int) tri {
@@ -251,32 +278,40 @@ type Guard struct {
 }
 
 // failsOnly: every path from b ends in a return whose error operand is not
-// provably nil (or any return when the function has no error result and
-// `boolFalse` asks for a false constant), or in a panic; without passing
-// through more than `budget` blocks.
-func (w *World) failsOnly(b *ssa.BasicBlock, seen map[*ssa.BasicBlock]bool, budget int) bool {
-	if seen[b] {
+// provably nil, or in a panic. Exact over the CFG (memoised DFS; a back edge to
+// a block on the current path is ignored: that path does not terminate).
+func (w *World) failsOnly(b *ssa.BasicBlock, memo map[*ssa.BasicBlock]int) bool {
+	switch memo[b] {
+	case 1: // on stack
 		return true
-	}
-	if budget <= 0 {
+	case 2:
+		return true
+	case 3:
 		return false
 	}
-	seen[b] = true
+	memo[b] = 1
+	res := false
 	switch t := lastInstr(b).(type) {
 	case *ssa.Return:
 		st := w.errState(t)
-		return st == triNonNil || st == triUnknown
+		res = st == triNonNil || st == triUnknown
 	case *ssa.Panic:
-		return true
+		res = true
 	case *ssa.Jump, *ssa.If:
+		res = len(b.Succs) > 0
 		for _, s := range b.Succs {
-			if !w.failsOnly(s, seen, budget-1) {
-				return false
+			if !w.failsOnly(s, memo) {
+				res = false
+				break
 			}
 		}
-		return len(b.Succs) > 0
 	}
-	return false
+	if res {
+		memo[b] = 2
+	} else {
+		memo[b] = 3
+	}
+	return res
 }
 
 // Guards lists the failing guards of fn: If instructions one of whose
@@ -289,8 +324,8 @@ func (w *World) Guards(fn *ssa.Function) []*Guard {
 			continue
 		}
 		t, f := b.Succs[0], b.Succs[1]
-		tf := w.failsOnly(t, map[*ssa.BasicBlock]bool{}, 6)
-		ff := w.failsOnly(f, map[*ssa.BasicBlock]bool{}, 6)
+		tf := w.failsOnly(t, map[*ssa.BasicBlock]int{})
+		ff := w.failsOnly(f, map[*ssa.BasicBlock]int{})
 		c := w.Canon(ifi.Cond)
 		switch {
 		case tf && !ff:
